@@ -261,6 +261,12 @@ fn plans_c20(tier: Tier) -> Vec<Plan> {
             d.variant = 100;
             v.push(Plan { cfg: d, depth_by_devs: vec![5, 4] });
         }
+        // broker-side topic aliases, one wildcard subscription matching two topics
+        let mut w = mk("C20", 100, 4, &["a/b", "a/c"], &["a/+"]);
+        w.v5 = vec![pub_v5, false, false, true, false];
+        w.prelude.push(Act::Sub { c: 2, f: 0, qos: 1 });
+        w.prelude.push(Act::Sub { c: 3, f: 0, qos: 1 });
+        v.push(Plan { cfg: w, depth_by_devs: if q { vec![3] } else { vec![5, 4] } });
     }
     v
 }
